@@ -11,9 +11,12 @@
     "prop:*"  the property's own checker fails on the implementation's answers alone (lookups
               compared with GetOrder / GetAllPayments, pages concatenated and compared with the
               complete listing).
-    "prop:known:*" is the reported known finding (findings/C13.md), kept apart from the rest. *)
+    "prop:known:*" is the reported known finding (findings/C13.md), kept apart from the rest.
+    Operations are joint operations [xop] (Exchange/Commit.v): order / payment operations of
+    Exchange/Index.v and commitment / market operations of Exchange/Commit.v; the observations also
+    carry the market listing (GetAllMarkets / GetMarket) and the four commitment lookups. *)
 From Coq Require Import ZArith NArith List String Bool.
-From PV Require Export Exchange.KV Exchange.Index Exchange.Paging Corr.CorrBase.
+From PV Require Export Exchange.KV Exchange.Index Exchange.Paging Exchange.Commit Corr.CorrBase.
 Import ListNotations.
 Open Scope string_scope.
 Open Scope list_scope.
@@ -27,10 +30,12 @@ Definition P (src ext tgt : bytes) (amt : Z) : payment :=
 
 Inductive endpoint :=
 | EMarket (m : N) | EOwner (a : bytes) | EAsset (d : bytes) | EAll
-| EPaySrc (a : bytes) | EPayTgt (a : bytes) | EPayAll.
+| EPaySrc (a : bytes) | EPayTgt (a : bytes) | EPayAll
+| ECommitMkt (m : N) | ECommitAll.
 
-(** A listed item: an order id, or a payment identified by (source, external id). *)
-Inductive item := IO (id : N) | IP (src ext : bytes).
+(** A listed item: an order id, a payment identified by (source, external id), or a commitment
+    identified by (market, account) with its amount. *)
+Inductive item := IO (id : N) | IP (src ext : bytes) | IC (m : N) (a : bytes) (c : coins).
 
 (** One observed page: request key/offset, whether the call succeeded, items, next_key, total. *)
 Inductive pageobs := Pg (k : key) (offset : N) (ok : bool) (items : list item) (next : key) (total : N).
@@ -53,11 +58,17 @@ Record obs := {
   ob_pays : list payment;                     (* GetAllPayments *)
   ob_psrc : list (bytes * list payment);
   ob_ptgt : list (bytes * list payment);
-  ob_pget : list (bytes * bytes * option payment)
+  ob_pget : list (bytes * bytes * option payment);
+  ob_markets : list N;                        (* GetAllMarkets: ids in listing order *)
+  ob_mnames : list (N * N);                   (* GetMarket(id): the name tag the harness gave at creation *)
+  ob_commits : list (N * bytes * coins);      (* GetAllCommitments *)
+  ob_cmkt : list (N * list (bytes * coins));  (* GetMarketCommitments *)
+  ob_cacct : list (bytes * list (N * coins)); (* GetAccountCommitments *)
+  ob_cget : list (N * bytes * coins)          (* GetCommitment probes *)
 }.
 
-(** op, accepted?, id handed out (creations), observations, sessions *)
-Inductive hstep := St (o : op) (ok : bool) (created : option N) (ob : obs) (ss : list session).
+(** op, accepted?, id handed out (order or market creations), observations, sessions *)
+Inductive hstep := St (o : xop) (ok : bool) (created : option N) (ob : obs) (ss : list session).
 
 Inductive case := CHist (steps : list hstep).
 
@@ -72,16 +83,23 @@ Definition item_eqb (a b : item) : bool :=
   match a, b with
   | IO x, IO y => x =? y
   | IP s e, IP s' e' => bytes_eqb s s' && bytes_eqb e e'
+  | IC m a c, IC m' a' c' => (m =? m') && bytes_eqb a a' && coins_eqb c c'
   | _, _ => false
   end.
+Definition ac_eqb (x y : bytes * coins) : bool := bytes_eqb (fst x) (fst y) && coins_eqb (snd x) (snd y).
+Definition mc_eqb (x y : N * coins) : bool := (fst x =? fst y) && coins_eqb (snd x) (snd y).
+Definition mac_eqb (x y : N * bytes * coins) : bool :=
+  (fst (fst x) =? fst (fst y)) && bytes_eqb (snd (fst x)) (snd (fst y)) && coins_eqb (snd x) (snd y).
 Definition ids_eqb := list_eqb N.eqb.
 Definition pays_eqb := list_eqb pay_eqb.
 Definition items_eqb := list_eqb item_eqb.
 Definition pay_item (p : payment) : item := IP (p_source p) (p_ext p).
 
 (** ---- the model side ---- *)
-Definition model_page (s : st) (ep : endpoint) (otype : option N) (after : N) (rq : page_req)
+Definition model_page (xs : xstate) (ep : endpoint) (otype : option N) (after : N) (rq : page_req)
   : option (list item * page_resp) :=
+  let s := fst xs in
+  let kv := cs_kv (snd xs) in
   let ord (r : option (list (N * order) * page_resp)) :=
     match r with Some (l, resp) => Some (map (fun x => IO (fst x)) l, resp) | None => None end in
   let pay (r : option (list payment * page_resp)) :=
@@ -94,9 +112,19 @@ Definition model_page (s : st) (ep : endpoint) (otype : option N) (after : N) (r
   | EPaySrc a => pay (page_of_payments_source s a rq)
   | EPayTgt a => pay (page_of_payments_target s a rq)
   | EPayAll => pay (page_of_all_payments s rq)
+  | ECommitMkt m =>
+      match page_of_market_commitments kv m rq with
+      | Some (l, resp) => Some (map (fun x => IC m (fst x) (snd x)) l, resp)
+      | None => None
+      end
+  | ECommitAll =>
+      match page_of_all_commitments kv rq with
+      | Some (l, resp) => Some (map (fun x => IC (fst (fst x)) (snd (fst x)) (snd x)) l, resp)
+      | None => None
+      end
   end.
 
-Definition corr_page (s : st) (ep : endpoint) (otype : option N) (after limit : N)
+Definition corr_page (s : xstate) (ep : endpoint) (otype : option N) (after limit : N)
            (reverse ctotal : bool) (p : pageobs) : bool :=
   let '(Pg k offset ok items next total) := p in
   let rq := {| pr_key := k; pr_offset := offset; pr_limit := limit; pr_count_total := ctotal;
@@ -107,7 +135,7 @@ Definition corr_page (s : st) (ep : endpoint) (otype : option N) (after limit : 
       ok && items_eqb mitems items && bytes_eqb (ps_next resp) next && (ps_total resp =? total)
   end.
 
-Definition corr_session (s : st) (se : session) : bool :=
+Definition corr_session (s : xstate) (se : session) : bool :=
   let '(Se ep otype after limit reverse keymode ctotal pages) := se in
   forallb (corr_page s ep otype after limit reverse ctotal) pages.
 
@@ -132,6 +160,10 @@ Definition expected_items (ob : obs) (ep : endpoint) (otype : option N) (after :
     | EPaySrc a => map pay_item (find bytes_eqb a (ob_psrc ob))
     | EPayTgt a => map pay_item (find bytes_eqb a (ob_ptgt ob))
     | EPayAll => map pay_item (ob_pays ob)
+    | ECommitMkt m =>
+        map (fun x => IC m (fst x) (snd x))
+            (match List.find (fun x => fst x =? m) (ob_cmkt ob) with Some x => snd x | None => [] end)
+    | ECommitAll => map (fun x => IC (fst (fst x)) (snd (fst x)) (snd x)) (ob_commits ob)
     end in
   if reverse then rev fwd else fwd.
 
@@ -168,6 +200,8 @@ Definition prop_session (ob : obs) (se : session) : list string :=
     | EAll, _, _ => ["prop:paging_complete:all_orders"]
     | EPayTgt _, _, _ => ["prop:paging_complete:payments_with_target"]
     | EPayAll, _, _ => ["prop:paging_complete:all_payments"]
+    | ECommitMkt _, _, _ => ["prop:paging_complete:market_commitments"]
+    | ECommitAll, _, _ => ["prop:paging_complete:all_commitments"]
     end.
 
 Fixpoint strictly_ascending (l : list N) : bool :=
@@ -228,6 +262,51 @@ Definition prop_obs (prev_max : N) (prev_ids : list N) (ob : obs) : list string 
                (ob_pget ob))
       "prop:get_payment".
 
+(** Markets and commitments, from the implementation's answers alone.
+    [prev] = the (id, name tag) pairs observed after the previous step. *)
+Definition coins_ok (c : coins) : bool := cvalid c && nonempty c.
+
+Definition prop_markets (prev : list (N * N)) (o : xop) (ok : bool) (created : option N) (ob : obs)
+  : list string :=
+  let prev_ids := map fst prev in
+  let is_create := match o with XC (CMarketCreate _ _) => true | _ => false end in
+  tag (strictly_ascending (ob_markets ob)) "prop:market_listing_has_no_duplicates" ++
+  tag (ids_eqb (map fst (ob_mnames ob)) (ob_markets ob)) "prop:every_listed_market_can_be_fetched" ++
+  (* a market id keeps identifying the same market *)
+  tag (forallb (fun x => existsb (fun y => (fst x =? fst y) && (snd x =? snd y)) (ob_mnames ob)) prev)
+      "prop:market_id_identifies_one_market:existing_market_replaced_or_lost" ++
+  tag (if is_create && ok
+       then match created with
+            | Some id => negb (existsb (N.eqb id) prev_ids) && existsb (N.eqb id) (ob_markets ob) &&
+                         (List.length (ob_markets ob) =? S (List.length prev_ids))%nat
+            | None => false
+            end
+       else ids_eqb (ob_markets ob) prev_ids)
+      "prop:market_id_identifies_one_market:creation_must_use_a_fresh_id" ++
+  tag (match o, ok, created with
+       | XC (CMarketCreate id _), true, Some got => (id =? 0) || (got =? id)
+       | _, _, _ => true
+       end) "prop:market_created_under_requested_id".
+
+Definition prop_commits (ob : obs) : list string :=
+  let cs := ob_commits ob in
+  tag (nodup_by (fun x y => (fst (fst x) =? fst (fst y)) && bytes_eqb (snd (fst x)) (snd (fst y))) cs)
+      "prop:commitment_unique_per_market_and_account" ++
+  tag (forallb (fun x => coins_ok (snd x)) cs) "prop:listed_commitment_amount_is_valid_and_nonzero" ++
+  tag (forallb (fun x => existsb (N.eqb (fst (fst x))) (ob_markets ob)) cs)
+      "prop:commitment_market_exists" ++
+  tag (forallb (fun x => list_eqb ac_eqb (snd x)
+                           (map (fun y => (snd (fst y), snd y)) (filter (fun y => fst (fst y) =? fst x) cs)))
+               (ob_cmkt ob)) "prop:market_commitments_lookup" ++
+  tag (forallb (fun x => list_eqb mc_eqb (snd x)
+                           (map (fun y => (fst (fst y), snd y))
+                                (filter (fun y => bytes_eqb (snd (fst y)) (fst x)) cs)))
+               (ob_cacct ob)) "prop:account_commitments_lookup" ++
+  tag (forallb (fun x => let '(m, a, c) := x in
+                         coins_eqb c (match List.find (fun y => (fst (fst y) =? m) && bytes_eqb (snd (fst y)) a) cs with
+                                      | Some y => snd y | None => [] end))
+               (ob_cget ob)) "prop:get_commitment".
+
 (** Model listings = implementation listings. *)
 Definition corr_obs (s : st) (ob : obs) : list string :=
   tag (forallb (fun id => opt_eqb order_eqb (get_order s id)
@@ -250,25 +329,40 @@ Definition corr_obs (s : st) (ob : obs) : list string :=
   tag (forallb (fun x => let '(src, e, r) := x in opt_eqb pay_eqb (get_payment s src e) r) (ob_pget ob))
       "corr:get_payment".
 
+Definition corr_cobs (c : cstate) (ob : obs) : list string :=
+  let kv := cs_kv c in
+  tag (ids_eqb (known_markets kv) (ob_markets ob)) "corr:known_markets" ++
+  tag (list_eqb mac_eqb (all_commitments kv) (ob_commits ob)) "corr:all_commitments" ++
+  tag (forallb (fun x => list_eqb ac_eqb (market_commitments kv (fst x)) (snd x)) (ob_cmkt ob))
+      "corr:market_commitments" ++
+  tag (forallb (fun x => list_eqb mc_eqb (account_commitments kv (fst x)) (snd x)) (ob_cacct ob))
+      "corr:account_commitments" ++
+  tag (forallb (fun x => let '(m, a, r) := x in coins_eqb (get_commitment kv m a) r) (ob_cget ob))
+      "corr:get_commitment".
+
 Definition is_known (t : string) : bool := String.prefix "prop:known:" t.
 
 (** One step: (new model state, tags that are not the known finding, known-finding tags). *)
-Definition check_step (s : st) (prev_max : N) (prev_ids : list N) (h : hstep)
-  : st * list string * list string :=
+Definition check_step (s : xstate) (prev_max : N) (prev_ids : list N) (prev_mk : list (N * N)) (h : hstep)
+  : xstate * list string * list string :=
   let '(St o ok created ob ss) := h in
   let model_created :=
     match o with
-    | OCreate ord => match create_order s ord with Some (_, id) => Some id | None => None end
+    | XO (OCreate ord) => match create_order (fst s) ord with Some (_, id) => Some id | None => None end
+    | XC (CMarketCreate id acc) => match create_market (snd s) id acc with Some (_, mid) => Some mid | None => None end
     | _ => None
     end in
-  let '(s', mok) := step s o in
+  let '(s', mok) := xstep s o in
   let sess := flat_map (prop_session ob) ss in
   let tags :=
     tag (Bool.eqb mok ok) "corr:accepted" ++
-    tag (opt_eqb N.eqb (if ok then model_created else None) created) "corr:created_order_id" ++
-    corr_obs s' ob ++
+    tag (opt_eqb N.eqb (if ok then model_created else None) created) "corr:created_id" ++
+    corr_obs (fst s') ob ++
+    corr_cobs (snd s') ob ++
     tag (forallb (corr_session s') ss) "corr:page" ++
     prop_obs prev_max prev_ids ob ++
+    prop_markets prev_mk o ok created ob ++
+    prop_commits ob ++
     filter (fun t => negb (is_known t)) sess in
   (s', tags, filter is_known sess).
 
@@ -283,12 +377,12 @@ Fixpoint dedup_str (l : list string) : list string :=
 
 (** Whole history: the tags of the first failing step (with its number), plus the known-finding
     tag if the known shape was met anywhere. *)
-Fixpoint check_steps (s : st) (prev_max : N) (prev_ids : list N) (i : N) (l : list hstep)
-         (first : list string) (known : list string) : list string :=
+Fixpoint check_steps (s : xstate) (prev_max : N) (prev_ids : list N) (prev_mk : list (N * N)) (i : N)
+         (l : list hstep) (first : list string) (known : list string) : list string :=
   match l with
   | [] => first ++ dedup_str known
   | h :: r =>
-      let '(s', tags, kn) := check_step s prev_max prev_ids h in
+      let '(s', tags, kn) := check_step s prev_max prev_ids prev_mk h in
       let '(St _ _ _ ob _) := h in
       let ids := map fst (ob_orders ob) in
       let mx := fold_left N.max ids prev_max in
@@ -296,12 +390,12 @@ Fixpoint check_steps (s : st) (prev_max : N) (prev_ids : list N) (i : N) (l : li
                     | [], _ :: _ => stamp i tags
                     | _, _ => first
                     end in
-      check_steps s' mx ids (N.succ i) r first' (known ++ kn)
+      check_steps s' mx ids (ob_mnames ob) (N.succ i) r first' (known ++ kn)
   end.
 
 Definition check (c : case) : list string :=
   match c with
-  | CHist steps => check_steps init 0 [] 0 steps [] []
+  | CHist steps => check_steps xinit 0 [] [] 0 steps [] []
   end.
 
 Definition check_all := check_list check.
